@@ -713,7 +713,12 @@ def c12(tier, seed, F):
                 for op in [rnd.choice(WRITES) for _ in range(2)]:
                     old = list(model)
                     log.calls, log.snapshots, log.record_snapshots, log.active = [], [], True, True
-                    model = apply_op(db, model, op, rnd)
+                    try:
+                        model = apply_op(db, model, op, rnd)
+                    except Exception as ex:
+                        log.active = False
+                        F.note("%s raises %s although no I/O call failed" % (op, type(ex).__name__), dict(kind="c12", op=op))
+                        break
                     log.active = False
                     for k, snap in enumerate(log.snapshots):
                         n += 1
